@@ -110,14 +110,15 @@ def model_stdout(srcs, a, b):
     return bytes(out)
 
 
-VIA = ("c10", "c08", "c09")
+VIA = ("c10", "c08", "c09", "c11")
 
 
 def run_case(seed, i, tier):
     if i % 6 == 5:
-        # "for every kind of source": event logs, accounting records and journals are windowed by their own readers;
+        # "for every kind of source": event logs, accounting records, journals and year-less text logs (whose dates are
+        # inferred before the window applies) are windowed by their own readers / passes;
         # their checks (independent evtx dump, generated records, journalctl) are run here too and reported under C03
-        name = VIA[(i // 6) % 3]
+        name = VIA[(i // 6) % len(VIA)]
         mod = __import__(name)
         mod.FORCE_WINDOW = True
         try:
